@@ -14,6 +14,8 @@ import (
 	"golang.org/x/tools/go/ssa"
 )
 
+var decTrace = os.Getenv("VERIF_DECTRACE") != ""
+
 type Event struct {
 	Kind string // assert | reach | observe | known | cover
 	ID   string
@@ -243,8 +245,11 @@ func (ex *Exec) fallbackQuery(goal *Term, want []*Term) (string, []uint64) {
 		// the bit-blaster stalled on arithmetic: the integer encoding takes over for the rest of this path
 		defer ex.switchToInt()
 	}
-	for _, kind := range []string{"cvc5-int", "cvc5", "z3-new"} {
+	for _, kind := range []string{"cvc5-int", "cvc5", "z3-new", "cvc5-long"} {
 		if kind == ex.active.kind {
+			continue
+		}
+		if kind == "cvc5" && ex.cfg.Solver == "cvc5" && ex.active == ex.solver {
 			continue
 		}
 		fb := ex.fallbacks[kind]
@@ -296,11 +301,18 @@ func (ex *Exec) decide(c *Term) bool {
 		return c.cv != 0
 	}
 	i := len(ex.taken)
+	if i > 4000 {
+		panic(unwindFail{"more than 4000 symbolic decisions on one path (a loop whose trip count depends on a symbolic value)"})
+	}
 	var d bool
 	if i < len(ex.prefix) {
 		d = ex.prefix[i] != 0
 		ex.modelValid = false
 	} else {
+		if decTrace && ex.curFrame != nil {
+			p := ex.posOf(ex.curFrame, ex.curFrame.curPos)
+			fmt.Fprintf(os.Stderr, "DECIDE #%d at %s:%d in %s: %s\n", i, p.Filename, p.Line, shortFn(ex.curFrame.fn.String()), trunc(c.String(), 120))
+		}
 		var ft, ff bool
 		mv, known := ex.evalUnderModel(c)
 		switch {
